@@ -81,3 +81,52 @@ Lemma conf_auth_client :
   && String.eqb gen_default_authmethod "anonymous"
   && same_set gen_router_set_welcome_keys ["authmethod"; "roles"] = true.
 Proof. vm_compute. reflexivity. Qed.
+
+(** ** The authenticators of router/auth: every point where [Authenticate]
+    refuses the client, in source order, with variables named by their role
+    (AUTHID = the claimed authid, KEY = what AuthKey returned, CHAL = the
+    challenge made in this call, AUTH = the AUTHENTICATE message, VERIFIED = the
+    result of verifySignature); what is sent as CHALLENGE.Extra; the wampcra
+    challenge format; the steps of cryptosign's verifySignature. *)
+
+(** ticket: no authid; OnWelcome error (bypass); receive error; not
+    AUTHENTICATE; no ticket or a different one; OnWelcome error *)
+Lemma conf_ticket :
+  same_strings gen_ticket_rejections
+    ["(==) AUTHID """""; "(!=) err nil"; "! ok"; "(||) (==) KEY nil (!=) AUTH Signature string KEY"]
+  && same_strings gen_ticket_challenge_extra ["Extra=wamp Dict"] = true.
+Proof. vm_compute. reflexivity. Qed.
+
+(** wampcra: the signature is verified against the challenge string made in
+    this call (CHAL), which is what was sent as Extra.challenge *)
+Lemma conf_cra :
+  same_strings gen_cra_rejections
+    ["(==) AUTHID """""; "(!=) err nil"; "(!=) err nil"; "! ok";
+     "! crsign VerifySignature AUTH Signature CHAL KEY"]
+  && same_strings gen_cra_challenge_extra ["challenge=CHAL"; "Extra=extra"] = true.
+Proof. vm_compute. reflexivity. Qed.
+
+(** the challenge string binds nonce, provider, authid, timestamp, authrole,
+    method and the session id, in the format the model renders *)
+Lemma conf_cra_challenge_format :
+  String.eqb gen_cra_challenge_format
+    "{ ""nonce"":""%s"", ""authprovider"":""%s"", ""authid"":""%s"", ""timestamp"":""%s"", ""authrole"":""%s"", ""authmethod"":""%s"", ""session"":%d }"
+  && same_strings gen_cra_challenge_args
+       ["nonce"; "cr keyStore Provider"; "authid"; "wamp NowISO8601"; "authrole"; "cr AuthMethod"; "session"]
+  = true.
+Proof. vm_compute. reflexivity. Qed.
+
+(** cryptosign: verifySignature receives the issued challenge and returns
+    whether the opened message equals it *)
+Lemma conf_cryptosign :
+  same_strings gen_cryptosign_rejections
+    ["(==) AUTHID """""; "(!=) err nil"; "(!=) err nil"; "(!=) err nil"; "(!=) err nil"; "! ok";
+     "(!=) err nil"; "! VERIFIED"]
+  && same_strings gen_cryptosign_challenge_extra ["challenge=hex EncodeToString CHAL"; "Extra=extra"]
+  && same_strings gen_cryptosign_verify_call ["AUTH Signature"; "KEY"; "CHAL"]
+  && Nat.eqb gen_cryptosign_verify_arity 3
+  && same_strings gen_cryptosign_verify_steps
+       ["hex DecodeString(ARG0)"; "(!=) err nil => false"; "(!=) len DECODED 96 => false";
+        "sign Open(nil, DECODED, & pubkey)"; "! OPENOK => false"; "=> bytes Equal OPENED ARG2"]
+  = true.
+Proof. vm_compute. reflexivity. Qed.
